@@ -261,6 +261,36 @@ impl ContextInstances {
     }
 }
 
+#[cfg(feature = "verif_hooks")]
+impl ContextInstances {
+    /// Lists `(type, priority, shared, entities)` of every group in evaluation order.
+    ///
+    /// Read-only introspection for the external verification harness.
+    pub fn verif_groups(&self) -> Vec<(TypeId, isize, bool, Vec<Entity>)> {
+        self.0
+            .iter()
+            .map(|group| match group {
+                InstanceGroup::Exclusive {
+                    type_id,
+                    priority,
+                    instances,
+                } => (
+                    *type_id,
+                    *priority,
+                    false,
+                    instances.iter().map(|(entity, _)| *entity).collect(),
+                ),
+                InstanceGroup::Shared {
+                    type_id,
+                    priority,
+                    entities,
+                    ..
+                } => (*type_id, *priority, true, entities.clone()),
+            })
+            .collect()
+    }
+}
+
 /// Instances of [`InputContext`] for the same type based on [`InputContext::MODE`].
 enum InstanceGroup {
     Exclusive {
